@@ -639,6 +639,7 @@ class Interp:
         self.reached_nodes = set()
         self.binding_atoms = set()
         self.unrefined_type_tests = set()
+        self.summary_depth = 0
         self.partition_unknown = False
         self._mro_cache, self._fm_cache, self._sub_cache = {}, {}, {}
         self._ex = {}
@@ -918,19 +919,32 @@ class Interp:
         v = av(NONE) if st.value is None else self.eval(fr, st.value)
         out.ret.append((fr.store, v))
 
+    KNOWN_DECORATORS = ('abstractmethod', 'contextmanager', 'staticmethod', 'classmethod', 'property', 'lru_cache', 'cache', 'setter', 'getter',
+                        'deleter', 'overload', 'final', 'override')
+
+    def decorate(self, fr, st, atom):
+        """value bound to a decorated function's name: decorators the analysis has a rule for leave the function in place
+        (the rule is applied where it is called), every other decorator is called with the function, as Python does"""
+        val = av(atom)
+        for d in reversed(st.decorator_list):
+            dn = dotted(d) or (dotted(d.func) if isinstance(d, ast.Call) else None) or ''
+            if dn.split('.')[-1] in self.KNOWN_DECORATORS:
+                continue
+            dv = self.eval(fr, d)
+            val = self.call_value(fr, dv, Args([val]), d)
+            if not val:
+                raise self.err(st, 'decorator {} never returns'.format(dn))
+        return val
+
     def st_FunctionDef(self, fr, st, store, out):
         q = self.qual[id(st)]
-        for d in st.decorator_list:
-            dn = dotted(d) or (dotted(d.func) if isinstance(d, ast.Call) else None) or ''
-            # caching decorators do not change what a call returns or raises
-            if dn.split('.')[-1] not in ('abstractmethod', 'contextmanager', 'staticmethod', 'classmethod', 'property', 'lru_cache', 'cache'):
-                self.decor[q] = self.decor.get(q, set()) | {'<unknown>'}
         if fr is self.module or isinstance(fr.node, ast.ClassDef):
             atom = ('fn', q)
         else:
             atom = ('clo', q, fr.fid)
-        self.bind(fr, st.name, av(atom))
-        out.next.append(store)
+        val = self.decorate(fr, st, atom) if st.decorator_list else av(atom)
+        self.bind(fr, st.name, val)
+        out.next.append(fr.store)
 
     st_AsyncFunctionDef = st_FunctionDef
 
@@ -950,6 +964,14 @@ class Interp:
         for b in st.body:
             if isinstance(b, (ast.FunctionDef, ast.AsyncFunctionDef)):
                 ci.methods[b.name] = self.qual[id(b)]
+                if any(((dotted(d) or (dotted(d.func) if isinstance(d, ast.Call) else None) or '').split('.')[-1]) not in self.KNOWN_DECORATORS
+                       for d in b.decorator_list):
+                    # a user-defined decorator: the class attribute is whatever it returns
+                    v = self.decorate(cframe, b, ('fn', self.qual[id(b)]))
+                    cframe.pending = []
+                    del ci.methods[b.name]
+                    ci.attrs[b.name] = v
+                cframe.store.vars[b.name] = av(('fn', self.qual[id(b)]))
             elif isinstance(b, ast.Assign):
                 try:
                     v = self.eval(cframe, b.value)
@@ -1066,7 +1088,11 @@ class Interp:
                 exits.append(s_f)
             if not ct:
                 break
-            o = self.exec_block(fr, st.body, [s_t])
+            self.summary_depth += 1
+            try:
+                o = self.exec_block(fr, st.body, [s_t])
+            finally:
+                self.summary_depth -= 1
             out.ret.extend(o.ret)
             out.exc.extend(o.exc)
             exits.extend(o.brk)
@@ -1128,7 +1154,11 @@ class Interp:
             s = head.copy()
             fr.store = s
             self.assign(fr, st.target, self.fresh_elem(fr, elems, st), st)
-            o = self.exec_block(fr, st.body, [s])
+            self.summary_depth += 1
+            try:
+                o = self.exec_block(fr, st.body, [s])
+            finally:
+                self.summary_depth -= 1
             out.ret.extend(o.ret)
             out.exc.extend(o.exc)
             breaks.extend(o.brk)
@@ -1311,9 +1341,13 @@ class Interp:
         if ctxs and others:
             raise self.err(st, 'with statement over a mix of context managers')
         if not ctxs:
+            objs = [a for a in others if a[0] == 'obj' and a[1] in self.classes]
+            if objs:
+                if len(objs) != len(others):
+                    raise self.err(st, 'with statement over a mix of context managers')
+                self.run_class_ctx(fr, st, idx, frozenset(objs), store, out)
+                return
             for a in others:
-                if a[0] == 'obj' and a[1] in self.classes:
-                    raise self.err(st, 'with statement over an instance of {} (class based context managers are not modelled)'.format(a[1]))
                 if a == TOP:
                     raise self.err(st, 'with statement over an unknown value')
             if item.optional_vars is not None:
@@ -1322,6 +1356,60 @@ class Interp:
             return
         for a in ctxs:
             self.run_ctx(fr, st, idx, a, store.copy(), out)
+
+    def run_class_ctx(self, fr, st, idx, objs, store, out):
+        """`with obj: body` for an instance of a repository class: __enter__, the body, then __exit__(type, value, tb) for every
+        way the body ends; a true result of __exit__ swallows the exception, an exception raised in __exit__ replaces it"""
+        item = st.items[idx]
+        for a in objs:
+            if self.find_method(a[1], '__enter__')[1] is None or self.find_method(a[1], '__exit__')[1] is None:
+                raise self.err(st, 'with statement over an instance of {} which has no __enter__ / __exit__'.format(a[1]))
+        fr.store = store
+        entered = self.call_value(fr, self.load_attr(fr, objs, '__enter__', st), Args(), st)
+        self.flush(fr, out, store)
+        if not entered:
+            return
+        if item.optional_vars is not None:
+            self.assign(fr, item.optional_vars, entered, st)
+        inner = Out()
+        self.exec_with(fr, st, idx + 1, fr.store, inner)
+        exit_m = self.load_attr(fr, objs, '__exit__', st)
+        none3 = Args([av(NONE), av(NONE), av(NONE)])
+        for kind in ('next', 'brk', 'cont'):
+            for s_ in getattr(inner, kind):
+                fr.store = s_
+                self.call_value(fr, exit_m, none3, st)
+                self.flush(fr, out, s_)
+                getattr(out, kind).append(s_)
+        for (s_, v) in inner.ret:
+            fr.store = s_
+            self.call_value(fr, exit_m, none3, st)
+            self.flush(fr, out, s_)
+            out.ret.append((s_, v))
+        for (s_, rec) in inner.exc:
+            fr.store = s_
+            hid = id(item)
+            self.caught_tbl[hid] = [rec]
+            before = len(fr.pending)
+            fr.handling.append([rec])
+            try:
+                r = self.call_value(fr, exit_m, Args([av(('cls', rec.cls)), av(('caught', hid)), av(EXT)]), st)
+            finally:
+                fr.handling.pop()
+            raised = fr.pending[before:]
+            del fr.pending[before:]
+            for new in raised:
+                new.converted_from = (rec,)
+                out.exc.append((s_.copy(), new))
+            self.ev_handler.setdefault((hid, rec.key()), (fr.qual, item, rec, 'with'))
+            fake = Out()
+            fake.exc = [(s_, n) for n in raised]
+            self.check_relabel(fr, item, [rec], fake)
+            t = {self.truth(x) for x in r}
+            if t & {'t', '?'}:
+                out.next.append(s_)          # swallowed
+            if t & {'f', '?'}:
+                out.exc.append((s_, rec))
 
     def run_ctx(self, fr, st, idx, ctx, store, out):
         """`with cm(...): body` where cm is a @contextmanager generator: the body runs at the generator's yield, so the
@@ -1735,7 +1823,8 @@ class Interp:
                 return av(('bound', a, q))
             ca = self.find_class_attr(cls, attr)
             if ca is not None:
-                return ca
+                # functions found in the class are bound to the instance
+                return frozenset(('bound', a, b) if b[0] in ('fn', 'clo', 'lam') else b for b in ca)
             if self.is_exception_class(cls) and attr == 'args':
                 return av(('list', av(STR_U)))
             return BOT
@@ -2435,6 +2524,7 @@ class Interp:
             mode, elems = self.iteration(fr, itv, gen.iter)
             if mode == 'exact' and len(elems) <= MAX_UNROLL:
                 todo = elems
+                summary = False
             else:
                 state['exact'] = False
                 if mode == 'exact':
@@ -2443,6 +2533,9 @@ class Interp:
                         x = join(x, e)
                     elems = x
                 todo = [elems] if elems else []
+                summary = True
+            if summary:
+                self.summary_depth += 1
             for e in todo:
                 saved = fr.store
                 s = saved.copy()
@@ -2462,7 +2555,13 @@ class Interp:
                         go(i + 1)
                 except Unreachable:
                     pass
+                except BaseException:
+                    if summary:
+                        self.summary_depth -= 1
+                    raise
                 fr.store = saved
+            if summary:
+                self.summary_depth -= 1
         go(0)
         fr.store = store0
         return state['exact'], results
@@ -3352,8 +3451,6 @@ class Interp:
             parent = self.frames.get(fnatom[2])
             if parent is None:
                 raise self.err(node, 'closure {} has lost its defining frame'.format(q))
-        if '<unknown>' in self.decor.get(q, ()):
-            raise self.err(node, 'function {} has a decorator the analysis does not model'.format(q))
         scope = self.scope_of(fnnode)
         bound, syms = self.bind_params(parent, fnnode, args, self_val)
         if bound is None:
@@ -3957,6 +4054,8 @@ class Interp:
                 return es
             if attr in ('append', 'add', 'insert'):
                 v = pos[-1] if pos else BOT
+                if attr == 'append' and k == 'seq' and a[1] == 'list' and self.summary_depth == 0 and len(a[2]) < MAX_UNROLL and v:
+                    return av(NONE), ('seq', 'list', a[2] + (v,))
                 if k == 'set' or (k == 'seq' and a[1] == 'set'):
                     return av(NONE), ('set', join(elems_of(), erase_tags(v)))
                 return av(NONE), ('list', join(elems_of(), erase_tags(v)))
@@ -4221,6 +4320,10 @@ class Interp:
                 else:
                     elem = join(elem, erase_tags(es))
             return av(('list', elem))
+        if name in ('functools.wraps', 'functools.update_wrapper'):
+            return av(('lib', '<identity>')) if name.endswith('wraps') else (x if x is not None else av(TOP))
+        if name == '<identity>':
+            return x if x is not None else av(TOP)
         if name in ('collections.ChainMap',):
             vals, keys, kv = BOT, frozenset(), BOT
             for p in pos:
